@@ -85,4 +85,10 @@ pub fn k_tagtype_custom_noncanonical() {
     assert!(u32::from(t) == c);
     assert!(u32::from(TagTypeId::from(t)) == c);
     assert!(t == c && c == t);
+    // equality with ids agrees with numeric equality also for non-canonical Custom(0..=21)
+    let d: u32 = kani::any();
+    let id = TagTypeId::new(d);
+    assert!((t == id) == (c == d));
+    assert!((id == t) == (c == d));
+    kani::cover!(c == 0 && d == 0);
 }
